@@ -2777,7 +2777,7 @@ func labelSources() []entrySrc {
 // probes whose failure mode is fatal for the process (a Go stack overflow cannot
 // be recovered): run in a child process, the exit is the observation
 
-var childProbes = []string{"export-cycle-object", "export-cycle-array", "export-deep-acyclic"}
+var childProbes = []string{"export-cycle-object", "export-cycle-array", "export-deep-acyclic", "export-global", "export-cycle-three"}
 
 func childProbe(which string) {
 	debug.SetMaxStack(64 << 20) // die early instead of eating a gigabyte
@@ -2786,6 +2786,8 @@ func childProbe(which string) {
 		"export-cycle-object": `var a = {}; a.a = a; a`,
 		"export-cycle-array":  `var a = [1]; a[1] = [a]; a`,
 		"export-deep-acyclic": `var a = {}, b = a; for (var i = 0; i < 200; i++) { b.n = {}; b = b.n } a`,
+		"export-global":       `var self = this, list = [this, {g: this}]; this`,
+		"export-cycle-three":  `var a = {}, b = {a: a}, c = [b]; a.c = c; a.get = {get g() { return a }}; c`,
 	}[which]
 	v, err := vm.Run(src)
 	if err != nil {
@@ -2865,13 +2867,24 @@ func protoAsInstanceSources(paths []string) []string {
 		if i < 0 || strings.HasPrefix(p, "%") || strings.Contains(p, "<") {
 			continue
 		}
-		if strings.HasPrefix(p, "RegExp.prototype.exec") || strings.HasPrefix(p, "RegExp.prototype.test") {
-			continue // finding C02-regexp-prototype-instance (pinned sources)
-		}
 		proto := p[:i+len(".prototype")]
 		out = append(out, p+"()", p+`("a", 1)`, proto+"."+p[i+len(".prototype."):]+".call("+proto+", 0, 1)",
 			"Object.create("+proto+")."+p[i+len(".prototype."):]+"(1)")
 	}
+	// a prototype object handed to the functions that take an instance of its class as an argument
+	// (the former region of C02-regexp-prototype-instance, b602a64)
+	for _, s := range []string{`"abc"`, `""`, `"a\ufffdb"`, `new String("x\ufffd")`} {
+		for _, c := range []string{`.replace(RegExp.prototype, "x")`, `.replace(RegExp.prototype, function (m) { return "[" + m + "]" })`, `.match(RegExp.prototype)`, `.split(RegExp.prototype)`,
+			`.split(RegExp.prototype, 2)`, `.search(RegExp.prototype)`, `.concat(String.prototype)`, `.indexOf(String.prototype)`, `.localeCompare(String.prototype)`} {
+			out = append(out, s+c)
+		}
+	}
+	out = append(out, `RegExp.prototype.lastIndex = 5; RegExp.prototype.exec("abc")`, `RegExp.prototype.test(RegExp.prototype)`, `new RegExp(RegExp.prototype).exec("a")`, `RegExp(RegExp.prototype) === RegExp.prototype`,
+		`Date.prototype.setTime.call(Date.prototype, 5)`, `new Date(Date.prototype).getTime()`, `[].concat(Array.prototype).length`, `Array.prototype.concat.call(Array.prototype, Array.prototype).length`,
+		`Function.prototype.apply(Function.prototype, Array.prototype)`, `Function.prototype.bind.call(Function.prototype)()`, `new Function.prototype()`, `Object.keys(String.prototype).length + Object.keys(Boolean.prototype).length`,
+		`JSON.stringify([RegExp.prototype, Date.prototype, String.prototype, Number.prototype, Boolean.prototype, Error.prototype, Array.prototype, Function.prototype])`,
+		`Object.isFrozen(Object.preventExtensions(new String("a\ufffd\ufffdb"))) + "" + Object.isSealed(Object.seal(new String("\ufffd")))`, `Object.getOwnPropertyDescriptor(new String("\ufffd"), "0").value.length`,
+		`var o = Object.assign({}, new String("\ufffda")); o[0] + o[1]`, `Object.freeze(new String("a\ufffd"))[1]`, `for (var k in new String("\ufffd\ufffd")) k`)
 	return out
 }
 
